@@ -1136,14 +1136,61 @@ Qed.
 Definition T_ZERO : nat := 4855.
 Definition T_SUBNORMAL : nat := 4615.
 
+(** the integer comparisons, from small ones (convergents 485/146 < log2 10 < 2136/643) so that
+    no number beyond ~2100 bits is ever computed (coqchk re-checks computations with the lazy
+    machine, not the VM) *)
+Lemma pow_chain : forall a b p q r s n : Z,
+  (0 < a)%Z -> (0 < b)%Z -> (0 <= p)%Z -> (0 <= q)%Z -> (0 <= r)%Z -> (0 <= s)%Z -> (0 < n)%Z ->
+  (a ^ p < b ^ q)%Z -> (a ^ r <= b ^ s)%Z -> (a ^ (p * n + r) < b ^ (q * n + s))%Z.
+Proof.
+  intros a b p q r s n Ha Hb Hp Hq Hr Hs Hn H1 H2.
+  assert (Hn0 : (0 <= n)%Z) by (apply Z.lt_le_incl; exact Hn).
+  assert (Hpn : (0 <= p * n)%Z) by (apply Z.mul_nonneg_nonneg; assumption).
+  assert (Hqn : (0 <= q * n)%Z) by (apply Z.mul_nonneg_nonneg; assumption).
+  rewrite (Z.pow_add_r a (p * n) r Hpn Hr), (Z.pow_add_r b (q * n) s Hqn Hs).
+  rewrite (Z.pow_mul_r a p n Hp Hn0), (Z.pow_mul_r b q n Hq Hn0).
+  assert (Hap : (0 < a ^ p)%Z) by (apply Z.pow_pos_nonneg; assumption).
+  assert (HAB : ((a ^ p) ^ n < (b ^ q) ^ n)%Z).
+  { apply Z.pow_lt_mono_l; [exact Hn|]. split; [apply Z.lt_le_incl; exact Hap | exact H1]. }
+  assert (HC : (0 < a ^ r)%Z) by (apply Z.pow_pos_nonneg; assumption).
+  assert (HB : (0 <= (b ^ q) ^ n)%Z).
+  { apply Z.pow_nonneg. apply Z.pow_nonneg. apply Z.lt_le_incl; exact Hb. }
+  apply Z.lt_le_trans with ((b ^ q) ^ n * a ^ r)%Z.
+  - apply Z.mul_lt_mono_pos_r; assumption.
+  - apply Z.mul_le_mono_nonneg_l; [exact HB | exact H2].
+Qed.
+
+Lemma cmp_485_146 : (2 ^ 485 < 10 ^ 146)%Z.  Proof. vm_compute. reflexivity. Qed.
+Lemma cmp_643_2136 : (10 ^ 643 < 2 ^ 2136)%Z.  Proof. vm_compute. reflexivity. Qed.
+Lemma cmp_120_37 : (2 ^ 120 <= 10 ^ 37)%Z.  Proof. vm_compute. discriminate. Qed.
+Lemma cmp_353_1173 : (10 ^ 353 <= 2 ^ 1173)%Z.  Proof. vm_compute. discriminate. Qed.
+Lemma cmp_295_89 : (2 ^ 295 <= 10 ^ 89)%Z.  Proof. vm_compute. discriminate. Qed.
+Lemma cmp_113_378 : (10 ^ 113 <= 2 ^ 378)%Z.  Proof. vm_compute. discriminate. Qed.
+
 Lemma W_4855 : W (INR T_ZERO) < bpow radix2 (-1075).
-Proof. apply (W_lt_bpow T_ZERO 1075); [lia|]. vm_compute. reflexivity. Qed.
+Proof.
+  apply (W_lt_bpow T_ZERO 1075); [lia|].
+  change (Z.of_nat T_ZERO) with (146 * 33 + 37)%Z. change (15 * 1075)%Z with (485 * 33 + 120)%Z.
+  apply pow_chain; [lia | lia | lia | lia | lia | lia | lia | exact cmp_485_146 | exact cmp_120_37].
+Qed.
 Lemma W_4854 : bpow radix2 (-1075) < W (INR (pred T_ZERO)).
-Proof. apply (W_gt_bpow (pred T_ZERO) 1075); [lia|]. vm_compute. reflexivity. Qed.
+Proof.
+  apply (W_gt_bpow (pred T_ZERO) 1075); [lia|].
+  change (Z.of_nat (pred T_ZERO)) with (643 * 7 + 353)%Z. change (15 * 1075)%Z with (2136 * 7 + 1173)%Z.
+  apply pow_chain; [lia | lia | lia | lia | lia | lia | lia | exact cmp_643_2136 | exact cmp_353_1173].
+Qed.
 Lemma W_4615 : W (INR T_SUBNORMAL) < bpow radix2 (-1022).
-Proof. apply (W_lt_bpow T_SUBNORMAL 1022); [lia|]. vm_compute. reflexivity. Qed.
+Proof.
+  apply (W_lt_bpow T_SUBNORMAL 1022); [lia|].
+  change (Z.of_nat T_SUBNORMAL) with (146 * 31 + 89)%Z. change (15 * 1022)%Z with (485 * 31 + 295)%Z.
+  apply pow_chain; [lia | lia | lia | lia | lia | lia | lia | exact cmp_485_146 | exact cmp_295_89].
+Qed.
 Lemma W_4614 : bpow radix2 (-1022) < W (INR (pred T_SUBNORMAL)).
-Proof. apply (W_gt_bpow (pred T_SUBNORMAL) 1022); [lia|]. vm_compute. reflexivity. Qed.
+Proof.
+  apply (W_gt_bpow (pred T_SUBNORMAL) 1022); [lia|].
+  change (Z.of_nat (pred T_SUBNORMAL)) with (643 * 7 + 113)%Z. change (15 * 1022)%Z with (2136 * 7 + 378)%Z.
+  apply pow_chain; [lia | lia | lia | lia | lia | lia | lia | exact cmp_643_2136 | exact cmp_113_378].
+Qed.
 
 Lemma RN64_tiny : forall x, 0 < x < bpow radix2 (-1075) -> RN64 x = 0.
 Proof.
